@@ -77,7 +77,9 @@ EmptyWsProg == <<T(<<91, 97, 32, 32>>), Ob(Var(S0)), [t |-> "trimL"], Ob(Lit(Str
 StrWsProg == <<T(<<91>>), Ob(Var(A)), [t |-> "trimL"], Ob(Lit(Str(<<120>>))), T(<<124>>), Ob(Lit(Str(<<121>>))), [t |-> "trimR"], Ob(Var(A)), T(<<124>>),
                Ob(Var(A)), [t |-> "trimL"], [t |-> "assign", name |-> <<113>>, e |-> Lit(IntV(1))], [t |-> "trimR"], Ob(Var(A)), T(<<93>>)>>
 MapProg == <<Ob(P(Var(M), KK)), Bar, Ob(Ix(Var(M), Lit(Str(JJ)))), Bar, Ob(P(Var(M), B_size)), Bar, Bit(Cmp("==", P(Var(M), KK), Lit(IntV(1)))),
-             Ob(P(Var(M), <<122>>)), Bar, Ob(Fl(P(Var(M), KK), "plus", <<P(Var(M), JJ)>>))>>
+             Ob(P(Var(M), <<122>>)), Bar, Ob(Fl(P(Var(M), KK), "plus", <<P(Var(M), JJ)>>)), Bar,
+             \* (first and last are what an ARRAY answers to: a map - ordered or not - has no such entry unless it holds the key)
+             T(<<60>>), Ob(P(Var(M), B_first)), T(<<124>>), Ob(P(Var(M), B_last)), T(<<62>>), Bit(P(Var(M), B_first))>>
 \* (size is not probed: for a []byte both the byte count and the character count are defensible)
 BytesProg == <<Ob(Var(S0)), Bar, Ob(Fl(Var(S0), "upcase", <<>>)), Bar, Ob(Fl(Var(S0), "append", <<Lit(Str(<<33>>))>>)), Bar,
                Ob(Fl(Var(S0), "truncate", <<Lit(IntV(4)), Lit(Str(<<>>))>>))>>
